@@ -65,6 +65,52 @@ def ident_part(rep, tier, coverage):
             "identifier_names": len(names), "identifier_uses": c[-1][1] if c else 0,
             "explanation": coverage["explanation"] + f"; identifier part: IdentMC enumerated {len(names)} names (all of <= {cfg['maxlen']} characters over {len(chars)} characters incl. upper case, blank, quote, $, dot, non-ASCII; reserved words and niladic functions in three spellings), each used as column, table and alias, compiled for 12 dialects: the identifier token must carry the name verbatim and be quoted where the specification requires, and SQLite must bind to the object of exactly that name (marker value)"}
 
+def capture_part(rep, tier):
+    """declarations named like a table of the query (in a module, so that both names stay reachable) or like a generated
+    name: the program must return what the same program returns with the declaration inlined - the table of the database
+    keeps its name, the declaration gets another (spec/RewriteLaw.tla on observed results, SQLite)"""
+    d = workdir("C09-capture")
+    pairs = [
+        ("from t | join (from u | take 3) (==k) | select {t.k, t.a, u.c}",
+         ["module m {\n  let t = (from u | take 3)\n}\nfrom t | join u = m.t (==k) | select {t.k, t.a, u.c}",
+          "module m {\n  let t = (from u | take 3)\n}\nfrom x = m.t | join t (==k) | select {t.k, t.a, x.c}",
+          "module m {\n  let u = (from u | take 3)\n}\nfrom t | join u = m.u (==k) | select {t.k, t.a, u.c}"]),
+        ("from u | join (from t | filter a > 0 | select {k, a}) (==k) | select {u.k, u.c, t.a}",
+         ["module m {\n  let u = (from t | filter a > 0 | select {k, a})\n}\nfrom u | join t = m.u (==k) | select {u.k, u.c, t.a}"]),
+        ("from t | take 2 | join (from u | take 3) (==k) | select {t.k, u.c}",
+         ["let table_0 = (from u | take 3)\nfrom t | take 2 | join u = table_0 (==k) | select {t.k, u.c}",
+          "module m {\n  let t = (from u | take 3)\n}\nfrom t | take 2 | join u = m.t (==k) | select {t.k, u.c}"]),
+    ]
+    srcs = []
+    for i, (b_, vs) in enumerate(pairs):
+        srcs.append({"id": f"cp{i}", "src": b_})
+        for j, v_ in enumerate(vs):
+            srcs.append({"id": f"cp{i}-v{j}", "base": f"cp{i}", "src": v_})
+    srcs.append({"id": "self-base", "src": "from t | select {k, a}"})
+    srcs.append({"id": "self-rows", "base": "self-base", "src": "from u | select {k, a}"})
+    ip = os.path.join(d, "cap.src.ndjson"); op = os.path.join(d, "cap.res.ndjson"); write_ndjson(ip, srcs)
+    pv(["runsrc", os.path.join(ROOT, "corpus", "dbs_quick.json"), ip, op])
+    out, info = tlc("RewriteLaw", "RewriteLaw.cfg", env={"TRACE": op}, workers=1, deque=True)
+    tr = tuples(out, "TRACE")
+    if not info["no_error"] or not tr or tr[0][1] != tr[0][2]:
+        raise ToolError("RewriteLaw did not consume the trace: " + info.get("error_text", out[-1200:])[:1500])
+    res = {r["id"]: r for r in read_ndjson(op) if r.get("ev") == "Result"}
+    src_of = {s_["id"]: s_["src"] for s_ in srcs}
+    nrej, selfok = 0, False
+    for t in tuples(out, "REJECT"):
+        vid, bid, verdict = t[1], t[2], t[3]
+        if vid == "self-rows":
+            selfok = True
+            continue
+        nrej += 1
+        rep.violation({"property": "C09", "kind": "capture-" + verdict, "base": src_of[bid], "variant": src_of[vid], "base_sql": res[bid].get("sql"), "variant_sql": res[vid].get("sql"),
+                       "variant_detail": res[vid].get("detail")},
+                      {"what": "capture-" + verdict, "src": src_of[vid], "base_src": src_of[bid], "sql": res[vid].get("sql") or "", "detail": res[vid].get("detail") or ""})
+    if not selfok:
+        raise ToolError("C09 capture family selftest: a variant reading another table was not rejected")
+    ran = sum(1 for r in res.values() if r["outcome"] == "rows")
+    return {"bases": len(pairs), "variants": len(srcs) - len(pairs) - 2, "executed": ran, "rejections": nrej}
+
 def let_clash_part(rep, tier, coverage):
     """user tables named table_0 / table_1 together with let-bound sub-pipelines, nested pipelines and relation literals:
     anonymous declarations are numbered before the tables of the query and must not take their names (F88)"""
@@ -127,6 +173,7 @@ def let_clash_part(rep, tier, coverage):
                        "prepare": rj["rec"].get("prepare")},
                       {"what": "alias-" + rj["verdict"], "dialect": rj["dialect"], "src": src, "sql": rj["rec"].get("sql") or "", "detail": rj["detail"]})
     out = ident_part(rep, tier, coverage)
+    out["name_capture_family"] = capture_part(rep, tier)
     out["alias_family"] = {"sources": len(srcs), "statements_judged": sr["judged"], "rejections": len(sr["rejects"])}
     out["let_clash_family"] = {"programs": len(progs), "accepted": res["accepted"], "rejected": res["rejected"], "not_judged": res["skipped"]}
     return out
